@@ -82,17 +82,21 @@ def h12(E, M, case):
     mc = E.flag("multicast")
     sc = Script(loop, E)
     ts = None
+    stop_joined = False
+    stop_first = False
     # stop == 1: the instance is withdrawn (stop_announce_service); stop == 2: the whole
     # announcer is stopped (instances stay registered)
     stopper = (lambda: ann.stop_announce_service(insts[0])) if case["stop"] == 1 else ann.stop
     if case["stop"]:
         ts = E.int("t_stop", 0, 1500)
-        if ts <= tf:
+        # at the same tick either may come first (and they may share a loop iteration)
+        stop_first = bool(ts < tf) or (bool(ts == tf) and E.flag("stop_first_at_tie"))
+        if stop_first:
             sc.at(ts, stopper, "stop")
             sc.at(tf, lambda: prot.datagram_received(data, P, mc), "find")
         else:
             sc.at(tf, lambda: prot.datagram_received(data, P, mc), "find")
-            sc.at(ts, stopper, "stop")
+            stop_joined = sc.at(ts, stopper, "stop")
     else:
         sc.at(tf, lambda: prot.datagram_received(data, P, mc), "find")
     sc.flush()
@@ -126,9 +130,17 @@ def h12(E, M, case):
             # stop is certainly not answered
             leave_by = tf + (50 if mc else 0) + C
             ready = E.And(ready, ts > leave_by)
-            # the script delivers the stop first whenever ts <= tf: then the instance is
-            # stopped when the request arrives, also within the same tick / iteration
-            notready = E.Or(notready, ts <= tf)
+            # stop delivered before the request (also within the same tick / iteration): the
+            # instance is stopped when the request arrives
+            if stop_first:
+                notready = True
+            # the answer is generated after the request's own loop iteration (unicast) or
+            # after the drawn delay (multicast): an instance stopped before that moment
+            # stays silent as well
+            if stop_joined:
+                notready = True
+            if mc and delays:
+                notready = E.Or(notready, ts < tf + delays[0]["v"])
         n = len(mine)
         if n:
             E.reach("h12.answered")
